@@ -54,9 +54,11 @@ def _mask(rng, p=0.3, lens=(2, 3, 4, 5, 6)):
     return None
 
 
-def gen_world(rng, tier):
+def gen_world(rng, tier, flavour=None):
     big = tier == "thorough"
     asize = rng.choice([2, 2, 2, 3] if not big else [2, 2, 3])
+    if flavour == "C02" and rng.random() < 0.25:
+        asize = 3  # three letters: overlapping cycles of one-way renamings
     alphabet = list(range(asize))
     n_pat = rng.choice([0, 1, 1, 2, 2, 3])
     pats = []
@@ -131,11 +133,13 @@ def gen_pack(rng, world, flavour=None, allow_iterative=True):
                 initial.append(dict(u, two_way=not u["two_way"], mask=None, lazy=False, ignore_parent=False))
             else:
                 (inferral if rng.random() < 0.7 else initial).append(u)
-    if rng.random() < 0.15:
+    if rng.random() < (0.4 if flavour in ("C02", "C17") else 0.15):
         # one-way renamings: directed cycles of one-way unary rules (overlapping ones with three letters)
         n = len(world["alphabet"])
         if n == 3 and rng.random() < 0.7:
-            perms = [[1, 2, 0], [2, 0, 1]] if rng.random() < 0.7 else [[1, 2, 0]]
+            perms = rng.choice([[[1, 2, 0], [2, 0, 1]], [[1, 2, 0], [0, 2, 1]], [[1, 2, 0], [1, 0, 2]], [[2, 0, 1], [2, 1, 0]], [[1, 2, 0]]])
+            if rng.random() < 0.5:
+                perms.reverse()
         else:
             perms = [[1, 0] + list(range(2, n))]
         tw = rng.random() < 0.2
@@ -210,7 +214,7 @@ def gen_auto(rng, final=False, budgets_mode=True):
 
 
 def gen_search(rng, tier, ruledb=None, flavour=None):
-    world = gen_world(rng, tier)
+    world = gen_world(rng, tier, flavour)
     pack = gen_pack(rng, world, flavour)
     db = ruledb or rng.choice(["default", "default", "forget", "forest", "forest", "forest_noreverse"])
     policy = rng.choice(["frozen", "frozen", "jitter"])
